@@ -6,6 +6,7 @@ from harness.common import Harness, IntRange, Cls, hole_args, text_of, reached
 from harness import docs
 from harness import templates as T
 from oracle.content import content
+from harness.c15 import file_routes as options_by_source     # 'depends only on the document and the options passed': not on the source type
 
 ASSUMPTIONS = [
     'sequences of two or three parse calls over valid and faulty documents (one K-character symbolic note, one symbolic garbage '
@@ -311,6 +312,7 @@ def instances(tier):
     for pos in ((1, 3) if quick else (0, 1, 2, 3)):
         out.append({'name': f'again/faulty/pos{pos}', 'factory': 'again', 'params': {'b_kind': 'faulty', 'K': K, 'fix': {'pos': pos}}, 'timeout': T1,
                     'native_limit': 40})
+    out.append({'name': 'options_by_source', 'factory': 'options_by_source', 'params': {'K': 1}, 'timeout': T1, 'native_limit': 60})
     for e in range(8):
         out.append({'name': f'isolation/edit{e}', 'factory': 'isolation', 'params': {'K': K, 'fix': {'edit': e}}, 'timeout': T1, 'native_limit': 60})
     for e in (0, 2, 3, 7):     # the edits that touch the project or a note
